@@ -26,6 +26,9 @@ def main():
         elif prop == "C02":
             from . import check_c02
             rc = check_c02.run(prop, a.tier, seed)
+        elif prop in ("C06", "C16"):
+            from . import check_derived
+            rc = check_derived.run(prop, a.tier, seed)
         else:
             print("no check for %s" % prop)
             rc = 2
